@@ -5,14 +5,16 @@ import re
 from core import CheckError, short, short_fn
 from rules_send import FLAVOURS, WRITE_OPS
 from rules_extra import _const_of, _norm, _is, _binop
+from engine import norm_rel
 
 
 def run(ctx):
-    _p13e(ctx)
-    _p12k(ctx)
-    _s3c(ctx)
-    _s3d(ctx)
-    _p15i(ctx)
+    ctx.step(_p13e, ctx)
+    ctx.step(_p12k, ctx)
+    ctx.step(_s3c, ctx)
+    ctx.step(_s3d, ctx)
+    ctx.step(_p15i, ctx)
+    ctx.step(_p10h, ctx)
 
 
 def _p13e(ctx):
@@ -89,8 +91,8 @@ def _p12k(ctx):
     pred = False
     for r_ in rets:
         for ci in g.nodes[r_].call['closure_insts']:
-            rv = g.strip(g.ev_local(ci, 0))
-            if rv[0] == 'bin' and rv[1] == 'Ne':
+            nr_ = norm_rel(g, g.ev_local(ci, 0))
+            if nr_ and nr_[0] == 'Eq' and not nr_[3]:
                 pred = True
     ok = bool(rets) and pred and not (x.reachable_entry(blocked=set(rets)) & set(g.exits))
     ctx.add('P12k', 'T-FLOW', fn, ok, 'remove_token drops exactly the given token from the list (retain != token)' if ok else
@@ -224,3 +226,52 @@ def _p15i(ctx):
     ok = all(vals.get(k) == v for k, v in want.items())
     ctx.add('P15i', 'T-FLOW', fn, ok, 'a new queue starts with head = first stream position = tail cache = last_pos = 0, one consumer, no pins' if ok else
             'initial state of a new queue is not the all-zero / one-consumer state: %s' % {k: vals.get(k) for k in want if vals.get(k) != want[k]}, sub='initial')
+
+
+# ---- P10h: which handle-returning functions create a stream and which stay on the caller's stream
+NEW_STREAM = [r'^multiqueue::InnerRecv::<.*>::add_stream$', r'^multiqueue::FutInnerRecv::<.*>::add_stream$',
+              r'^multiqueue::FutInnerUniRecv::<.*>::add_stream_with$', r'^multiqueue::FutInnerUniRecv::<.*>::into_multi$']
+SAME_STREAM = [r'^<multiqueue::InnerRecv<.*> as std::clone::Clone>::clone$', r'^<multiqueue::FutInnerRecv<.*> as std::clone::Clone>::clone$',
+               r'^multiqueue::FutInnerRecv::<.*>::into_single$']
+
+
+def _p10h(ctx):
+    """add_stream / add_stream_with / into_multi return a handle on a stream that was created and published during
+    the call; clone / into_single return a handle on the caller's own stream and publish nothing"""
+    for pat in NEW_STREAM + SAME_STREAM:
+        fn = ctx.fn1(pat)
+        new = pat in NEW_STREAM
+        g = ctx.graph(fn, 'BCast')
+        x = g.x
+        pubs = [a for a in x.atoms_on('ReadCursor.readers') if a.op in WRITE_OPS]
+        label = short_fn(fn)
+        if not new:
+            ctx.add('P10h', 'T-WHO', fn, not pubs, '%s stays on the caller\'s stream (no stream-list publication)' % label if not pubs else
+                    '%s publishes a new stream list although it must hand out the caller\'s own stream (an extra stream nobody drains stalls the producers / sees every value again)' % label,
+                    sub='same')
+            continue
+        succ = set()
+        for a in pubs:
+            if a.op in ('compare_exchange', 'compare_exchange_weak', 'compare_and_swap'):
+                for sid in x.switches():
+                    e = g.strip(g.switch_expr(sid))
+                    if e[0] == 'discr' and g.strip(e[1]) == ('call', a.nid):
+                        succ.update(x.switch_edges(sid, '0'))
+            else:
+                succ.add(a.nid)
+        ok = bool(succ) and all(x.dom(succ, ex) for ex in g.exits)
+        ctx.add('P10h', 'T-MUST', fn, ok, '%s returns only after publishing a stream list with the new stream' % label if ok else
+                '%s can return without having created and published a new stream: the handle it returns shares the caller\'s stream (takes values away from it, exerts no back-pressure of its own)' % label,
+                sub='new')
+        # the returned handle reads through the Reader built for the new stream, not through a copy of the caller's
+        fresh = [(nid, si) for (nid, si, rv) in x.aggs(r'read_cursor::Reader::Reader$')
+                 if re.search(r'ReaderGroup::add_stream$', short_fn(g.nodes[nid].fn))]
+        okf = False
+        for ex in g.exits:
+            r = g.ev_local(g.root_inst, 0, at=(ex, None))
+            ids = {s[5] for s in g.deep_walk(r) if s[0] == 'agg' and len(s) > 5}
+            okf = bool(fresh) and any((nid, si) in ids or any((m, si) in ids for m in g.members(nid)) for (nid, si) in fresh)
+            if not okf:
+                break
+        ctx.add('P10h', 'T-FLOW', fn, okf, 'the returned handle wraps the Reader of the stream created in this call' if okf else
+                '%s does not return the Reader built for the newly published stream' % label, sub='reader')
